@@ -483,6 +483,13 @@ pub fn replay(case: &Value) -> Option<Violation> {
             v
         });
     }
+    if case.get("pending_under_recursion").is_some() {
+        let src = case.get("src")?.as_str()?;
+        if case.get("pending_under_recursion").and_then(|x| x.as_str()) == Some("counter") {
+            return pending_counter_case(src, case.get("depth")?.as_i64()?).err();
+        }
+        return pending_case(src, case.get("depth")?.as_i64()?).err();
+    }
     if case.get("safety_only").is_some() {
         let src = case.get("src")?.as_str()?;
         let o = run_eval(src, &RunCfg { budget: VM_BUDGET, audit_heap: true });
@@ -494,6 +501,180 @@ pub fn replay(case: &Value) -> Option<Violation> {
     replay_src("C03", case)
 }
 
+/// (D) heap values that are only reachable from operands that are PENDING at the bottom of the stack (an array literal under
+/// construction at top level, the locals and pending operands of callers) while a recursion runs right up to, and past, the
+/// machine's stack limit: whatever the recursion ends in (a value or the limit's error, U17), the pending values must be
+/// intact when the callers go on. Frames with 32 slots, so the limit is reached at a depth of about 2 000 and a collection
+/// per return stays cheap.
+fn pending_program(depth: i64, wide_frames: bool) -> String {
+    // frames of 32 slots reach the limit at a depth of about 2 000; frames of 2 slots (one parameter, one pending operand) at
+    // 32 768, and only they can fill the stack to the very last slot
+    let locals: String = if wide_frames { (0..30).map(|i| format!("stel l{i} = n; ")).collect() } else { String::new() };
+    format!(
+        "functie d(n) {{ {locals}als n <= 0 {{ antwoord 0 }} 1 + d(n - 1) }} functie buiten(k) {{ stel t = string(k); stel f = float(k) + 0.5; stel r = [t, f, [k], d(k)]; [t, f, r] }} stel w = [\"tekst\", 2.5, [1], buiten({depth})]; w"
+    )
+}
+
+/// the same with frames that hold nothing but two pending operands and a depth that does not depend on any slot of the
+/// stack (a global counter): the recursion can END beyond the point at which a 16-bit frame base would wrap
+fn pending_program_counter(depth: i64) -> String {
+    // (only list construction consumes the pending operands: whatever is on the stack, no operation can fail on its type)
+    format!("stel diepte = 0; functie f() {{ diepte = diepte + 1; als diepte > {depth} {{ [] }} anders {{ [\"links\", 2.5, f()] }} }} stel w = [\"tekst\", 2.5, [1], f()]; [w, diepte]")
+}
+
+fn pending_counter_case(src: &str, depth: i64) -> Result<(), Violation> {
+    let o = run_eval(src, &RunCfg { budget: 60_000_000, audit_heap: true });
+    let bad = |class: &str, o: &Obs| Violation {
+        property: "C03".into(),
+        driver: "pending-under-recursion".into(),
+        class: class.into(),
+        case: json!({"pending_under_recursion": "counter", "src": src, "depth": depth}),
+        expected: format!("[[tekst, 2.5, [1], <{depth} nested [links, 2.5, ..] lists>], {}] or the stack limit's error; no freed object is observed", depth + 1),
+        observed: o.render().chars().take(600).collect(),
+    };
+    if o.outcome.is_crash() || !o.events.is_empty() || o.heap.dead_in_result > 0 {
+        return Err(bad("unsafe-while-operands-are-pending", &o));
+    }
+    match &o.outcome {
+        Outcome::Error(_) | Outcome::Budget if depth >= 30_000 => Ok(()),
+        Outcome::Error(_) | Outcome::Budget => Err(bad("error-far-below-the-limit", &o)),
+        Outcome::Value(Val::Arr(_, top)) => {
+            let ok = top.len() == 2
+                && top[1] == Val::Int(depth + 1)
+                && matches!(&top[0], Val::Arr(_, w) if w.len() == 4
+                    && matches!(&w[0], Val::Str(s) if s == "tekst")
+                    && matches!(&w[1], Val::Float(b) if *b == crate::engine::fbits(2.5))
+                    && matches!(&w[2], Val::Arr(_, one) if one.len() == 1 && one[0] == Val::Int(1))
+                    && {
+                        // depth nested [links, 2.5, …] around an empty list
+                        let mut cur = &w[3];
+                        let mut levels = 0i64;
+                        loop {
+                            match cur {
+                                Val::Arr(_, x) if x.is_empty() => break levels == depth,
+                                Val::Arr(_, x) if x.len() == 3 && matches!(&x[0], Val::Str(s) if s == "links") && matches!(&x[1], Val::Float(b) if *b == crate::engine::fbits(2.5)) => {
+                                    levels += 1;
+                                    cur = &x[2];
+                                }
+                                _ => break false,
+                            }
+                        }
+                    });
+            if ok {
+                Ok(())
+            } else {
+                Err(bad("pending-values-changed", &o))
+            }
+        }
+        _ => Err(bad("pending-values-changed", &o)),
+    }
+}
+
+fn pending_case(src: &str, depth: i64) -> Result<(), Violation> {
+    let wide_frames = src.contains("stel l0 = n");
+    let o = run_eval(src, &RunCfg { budget: 60_000_000, audit_heap: true });
+    let bad = |class: &str, o: &Obs| Violation {
+        property: "C03".into(),
+        driver: "pending-under-recursion".into(),
+        class: class.into(),
+        case: json!({"pending_under_recursion": true, "src": src, "depth": depth}),
+        expected: format!("[tekst, 2.5, [1], [\"{depth}\", {}.5, [\"{depth}\", {}.5, [{depth}], {depth}]]] or the stack limit's error; no freed object is observed", depth, depth),
+        observed: o.render().chars().take(600).collect(),
+    };
+    if o.outcome.is_crash() || !o.events.is_empty() || o.heap.dead_in_result > 0 {
+        return Err(bad("unsafe-while-operands-are-pending", &o));
+    }
+    match &o.outcome {
+        // (far below the limit the recursion has to succeed: an error there would make the whole family vacuous)
+        Outcome::Error(_) | Outcome::Budget if depth >= if wide_frames { 1900 } else { 32_000 } => Ok(()),
+        Outcome::Error(_) | Outcome::Budget => Err(bad("error-far-below-the-limit", &o)),
+        Outcome::Value(v) => {
+            if rendering_matches(v, depth) {
+                Ok(())
+            } else {
+                Err(bad("pending-values-changed", &o))
+            }
+        }
+        _ => Err(bad("unsafe-while-operands-are-pending", &o)),
+    }
+}
+
+/// structural comparison of the expected result [\"tekst\", 2.5, [1], [t, f, [t, f, [k], k]]] with t = string(k), f = k + 0.5
+fn rendering_matches(v: &Val, k: i64) -> bool {
+    let f = crate::engine::fbits(k as f64 + 0.5);
+    let t = k.to_string();
+    let is_t = |x: &Val| matches!(x, Val::Str(s) if *s == t);
+    let is_f = |x: &Val| matches!(x, Val::Float(b) if *b == f);
+    if let Val::Arr(_, w) = v {
+        if w.len() != 4 || !matches!(&w[0], Val::Str(s) if s == "tekst") || !matches!(&w[1], Val::Float(b) if *b == crate::engine::fbits(2.5)) {
+            return false;
+        }
+        if !matches!(&w[2], Val::Arr(_, one) if one.len() == 1 && one[0] == Val::Int(1)) {
+            return false;
+        }
+        if let Val::Arr(_, outer) = &w[3] {
+            if outer.len() == 3 && is_t(&outer[0]) && is_f(&outer[1]) {
+                if let Val::Arr(_, r) = &outer[2] {
+                    return r.len() == 4 && is_t(&r[0]) && is_f(&r[1]) && matches!(&r[2], Val::Arr(_, one) if one.len() == 1 && one[0] == Val::Int(k)) && r[3] == Val::Int(k);
+                }
+            }
+        }
+    }
+    false
+}
+
+fn pending_family(rep: &mut Report) {
+    let mut cases: Vec<(i64, bool)> = vec![(0, true), (1, true), (10, true), (500, true), (1500, true)];
+    cases.extend((2036..=2056).map(|k| (k, true)));
+    cases.extend([(2100, true), (3000, true), (4090, true), (4100, true), (6200, true)]);
+    cases.extend([(3, false), (1000, false), (20_000, false)]);
+    cases.extend((32_764..=32_772).map(|k| (k, false)));
+    cases.extend([(33_000, false), (40_000, false), (65_536, false), (70_000, false)]);
+    // third shape (global counter): the "wide" flag is not used, depths are marked by adding 1 000 000
+    cases.extend([100i64, 2_000].into_iter().map(|k| (1_000_000 + k, false)));
+    // (only depths beyond the limit: just below it every one of the 32 000 returns would run a collection over 65 000 objects)
+    cases.extend((32_770..=32_776).map(|k| (1_000_000 + k, false)));
+    cases.extend([33_000i64, 40_000, 50_000, 60_000, 65_000, 65_530, 65_540, 70_000].into_iter().map(|k| (1_000_000 + k, false)));
+    let cases = std::sync::Arc::new(cases);
+    let lanes = 8usize;
+    let mut handles = Vec::new();
+    for lane in 0..lanes {
+        let cases = cases.clone();
+        handles.push(
+            std::thread::Builder::new()
+                .stack_size(512 << 20)
+                .spawn(move || {
+                    crate::engine::install_gc_observer();
+                    let mut out = Vec::new();
+                    for (i, (k, wide)) in cases.iter().enumerate() {
+                        if i % lanes == lane {
+                            if *k >= 1_000_000 {
+                                let k = *k - 1_000_000;
+                                out.push((i, pending_counter_case(&pending_program_counter(k), k).err()));
+                            } else {
+                                out.push((i, pending_case(&pending_program(*k, *wide), *k).err()));
+                            }
+                        }
+                    }
+                    crate::engine::note_current("done", "");
+                    out
+                })
+                .expect("spawn"),
+        );
+    }
+    for h in handles {
+        for (i, v) in h.join().expect("lane") {
+            rep.eval();
+            rep.count("pending-under-recursion");
+            rep.nontrivial(&format!("pending-under-recursion:{:?}", cases[i]));
+            if let Some(v) = v {
+                rep.violation(v);
+            }
+        }
+    }
+    rep.sample(json!({"pending-under-recursion": pending_program(32_768, false)}));
+}
+
 pub fn run_check(ctx: &Ctx) -> Report {
     let mut rep = Report::new(
         "C03",
@@ -503,6 +684,7 @@ pub fn run_check(ctx: &Ctx) -> Report {
          (B) histories of collector operations (allocate float/string/array, link, unlink, collect with a chosen root set incl. duplicates and unmanaged arrays, hand over) driving the collector directly, against a reachability model: \
          ALL histories of <=4 (quick) / <=5 (thorough) operations over a 3-object universe, random histories of <=40 operations over 8 objects. \
          (C) generated sessions on a retained compiler + VM (heap values in globals across runs, run-time failing lines, fresh objects stored into arrays of earlier lines, function calls), judged for memory safety. \
+         (D) heap values reachable only from operands pending at the bottom of the stack while a recursion runs up to and past the stack limit, with 32-slot frames (every depth 2036 ... 2056 and further ones) and with 2-slot frames that can fill the stack to the last slot (every depth 32 764 ... 32 772 and further ones to 70 000): a value or the limit's error, and the pending values intact. \
          non-trivial = a collection ran while >=1 heap object was reachable and >=1 was garbage; distinct by program text / history",
     );
     rep.assumptions.push("shadow heap (hook H5) is the ground truth for freed / live".into());
@@ -513,6 +695,8 @@ pub fn run_check(ctx: &Ctx) -> Report {
     let seed = ctx.seed;
     let shards = ctx.shards;
     let enum_len = ctx.pick(4usize, 5usize);
+    crate::engine::note_current("done", "");
+    pending_family(&mut rep);
     par_shards(ctx.shards, rep, move |shard, r| {
         let cfg = DiffCfg { prop: "C03", driver: "alloc-programs", profile: Profile::alloc(), cases, max_len: 700, seed: seed.wrapping_mul(179_424_673) + shard as u64, layout: false };
         run_alloc_tapes(r, &cfg, &known);
